@@ -65,6 +65,16 @@ SEEDS = {
  "s5-C16e": ("C16", ["C16"], "pure data race: operation-id index built lazily by the first OperationForName on a fresh analyzer"),
  "s5-C17e": ("C17", ["C17"], "a tag name absent from the primary occurring in two mixins (or twice in one)"),
  "s5-C20e": ("C20", ["C20"], "additionalProperties: false (closed empty object no more a known type)"),
+ "s6-C01f": ("C01", ["C01", "C02"], "two referenced definitions of one auxiliary file whose names are equal up to a '#' ('Pet#v1' / 'Pet#v2'): normalize.Path drops what follows the second '#', both refs fall into one import group"),
+ "s6-C03f": ("C03", ["C03", "C20"], "an inline allOf composition that also carries additionalProperties and no own properties: classified as a map, left inline by full flatten"),
+ "s6-C04f": ("C04", ["C04", "C01"], "two-hop import whose second hop goes up a directory ('../common/owner.json' inside an imported schema): leading '..' dropped by cleaning the rooted relative part"),
+ "s6-C06f": ("C06", ["C06", "C08"], "RemoveUnused + an unused definition that is a bare $ref alias heading a chain of otherwise unused definitions (removal loop stops early)"),
+ "s6-C07f": ("C07", ["C07"], "a colliding $ref-free import with two referrers of equal depth that are same-index members of same-kind arrays in different schemas (cat.allOf[0], dog.allOf[0]): tie in TopmostFirst"),
+ "s6-C08f": ("C08", ["C08", "C06"], "RemoveUnused + an unused bare alias of a definition nobody else uses: first pass leaves the chain, second pass removes it"),
+ "s6-C09f": ("C09", ["C09"], "an anonymous pointer to the responses object of an operation ('#/paths/~1things/get/responses') used by two schemas: index out of range in IsStatusCodeResponse"),
+ "s6-C12f": ("C12", ["C12", "C11"], "a schema-level 'definitions' keyword with two or more entries: range variable shared (go 1.20 semantics), every SchemaRef of the map points to the last one"),
+ "s6-C18f": ("C18", ["C18"], "a path item carrying both a $ref and inline operations whose ids collide: skipped by pathItemOps"),
+ "s6-C19f": ("C19", ["C19"], "responses that are $refs to other files by relative path or file:// URL (HasURLPathOnly): get a description next to the $ref"),
 }
 only = set(sys.argv[1:])
 res_path = os.path.join(HERE, "seeded", "results.json")
